@@ -663,4 +663,26 @@ theorem tie_fillSlice_fresh_target :
     ∧ fillStructElementStores = [("SetValue(baseType, target, ptr.Elem())", 0)] := by
   refine ⟨?_, ?_, ?_, ?_, ?_, ?_, ?_, ?_, ?_, ?_, ?_⟩ <;> decide +kernel
 
+/-! ### round 5e: a front end keeps nothing between calls but its unmarshaler (`Props.frontEnd_history_independent`)
+
+The model of `ParseHeaders` / `ParsePath` / `ParseForm` / conf's key lowering is a function of the call's own input.  The code
+matches that iff the intermediate map it fills is made by the call itself and the only package-level state it touches is the
+(immutable) unmarshaler.  (Seeded C08-10 took the map from a `sync.Pool` and cleared it on the success path only.) -/
+
+/-- the defining expression makes a new map: a `map[…]…{}` literal or `make(map[…]…` -/
+def makesNewMap (origin : String) : Bool :=
+  let rhs := (origin.toList.dropWhile (fun c => c != '=')).drop 2
+  (rhs.take 9 == "make(map[".toList) || (rhs.take 4 == "map[".toList && rhs.getLast? == some '}')
+
+theorem tie_frontEnds_keep_no_state :
+    parseHeadersStateGlobals = ["headerUnmarshaler"] ∧ parsePathStateGlobals = ["pathUnmarshaler"]
+    ∧ parseFormStateGlobals = ["formUnmarshaler"] ∧ parseJsonBodyStateGlobals = [] ∧ getFormValuesStateGlobals = []
+    ∧ confLowerStateGlobals = [] ∧ confLoadJsonStateGlobals = []
+    ∧ parseHeadersStateMapOrigins.length = 1 ∧ parseHeadersStateMapOrigins.all makesNewMap = true
+    ∧ parsePathStateMapOrigins.length = 1 ∧ parsePathStateMapOrigins.all makesNewMap = true
+    ∧ getFormValuesStateMapOrigins.length = 1 ∧ getFormValuesStateMapOrigins.all makesNewMap = true
+    ∧ confLowerStateMapOrigins.length = 1 ∧ confLowerStateMapOrigins.all makesNewMap = true
+    ∧ makesNewMap "m := headerMapPool.Get().(map[string]any)" = false := by
+  refine ⟨?_, ?_, ?_, ?_, ?_, ?_, ?_, ?_, ?_, ?_, ?_, ?_, ?_, ?_, ?_, ?_⟩ <;> decide +kernel
+
 end GoZero.C08.Tie
